@@ -1,4 +1,4 @@
 CONSTANTS MaxSub = 3  MaxEv = 3  OrderedPub = TRUE
 SPECIFICATION Spec
-INVARIANTS TypeOK ExactlyOnceInOrder NoLoss NoBlock TreeOK
+INVARIANTS TypeOK ExactlyOnceInOrder NoLoss NoBlock TreeOK PositionalLemma
 CHECK_DEADLOCK TRUE
